@@ -16,7 +16,8 @@ VARIABLES stage, scr
 vars == <<stage, scr>>
 
 Styles == {[ws |-> 0, kw |-> 0, quote |-> FALSE], [ws |-> 1, kw |-> 1, quote |-> TRUE], [ws |-> 2, kw |-> 2, quote |-> FALSE],
-           [ws |-> 0, kw |-> 2, quote |-> TRUE], [ws |-> 1, kw |-> 0, quote |-> FALSE], [ws |-> 2, kw |-> 1, quote |-> TRUE]}
+           [ws |-> 0, kw |-> 2, quote |-> TRUE], [ws |-> 1, kw |-> 0, quote |-> FALSE], [ws |-> 2, kw |-> 1, quote |-> TRUE],
+           [ws |-> 0, kw |-> 0, quote |-> TRUE, esc |-> 1], [ws |-> 1, kw |-> 1, quote |-> FALSE, esc |-> 1]}
 Plain == [ws |-> 0, kw |-> 0, quote |-> FALSE]
 
 \* number literals with their lexemes: unsigned, negative, fractional, exponent
@@ -27,8 +28,8 @@ LitFL == FL \o << <<f1000.b, <<49, 101, 51>> >>, <<fm25.b, <<45, 50, 46, 53>> >>
 LitFL2 == << <<f1000.b, <<49, 48, 48, 48, 46, 48>> >>, <<f15.b, <<49, 46, 53, 48>> >>, <<fm25.b, <<45, 50, 53, 69, 45, 49>> >>, <<f5em1.b, <<53, 101, 45, 49>> >> >>
 \* a non-negative number has one spelling and reads back unsigned, so signed non-negative literals are not syntax
 SynLits == (Lits \ {PNum(i1)}) \cup {PNum(f1000), PNum(fm25), PNum(f5em1), PNum(im1), PNum(u2p53p1), PNum(umax), PNum(imin), PNum(u0),
-                      PStr(<<97, 34, 98>>), PStr(<<195, 169>>), PStr(<<92>>), PStr(<<97, 32, 98>>), PStr(<<10>>)}
-SynNames == {ka, kab, <<97, 95, 49>>, kE, <<97, 32, 98>>, <<34>>, kEmpty, <<36>>}
+                      PStr(<<97, 34, 98>>), PStr(<<195, 169>>), PStr(<<92>>), PStr(<<97, 32, 98>>), PStr(<<10>>), PStr(<<47, 8, 12, 13, 240, 159, 152, 128>>)}
+SynNames == {ka, kab, <<97, 95, 49>>, kE, <<97, 32, 98>>, <<34>>, kEmpty, <<36>>, <<97, 47, 98>>, <<240, 159, 152, 128, 9>>}
 
 SynCmps == {EBin(op, EPaths(<<Cur, Dot(ka)>>), EVal(v)) : op \in CmpOps, v \in {PNum(u1)}}
            \cup {EBin("eq", EPaths(<<Cur>>), EVal(v)) : v \in SynLits}
@@ -96,11 +97,12 @@ EmitSoup2 == \E bs \in [1..2 -> {34, 92, 117, 123, 97, 48}], pre \in {<<36, 46>>
 \* ---- key paths
 KpElems == {[i |-> 0], [i |-> 1], [i |-> -1], [i |-> 2147483647], [i |-> (0 - 2147483647) - 1],
             [n |-> ka], [n |-> kab], [n |-> <<97, 95, 49>>], [n |-> kE],
-            [q |-> ka], [q |-> kEmpty], [q |-> <<97, 34, 98>>], [q |-> <<97, 32, 98>>], [q |-> kE], [q |-> <<49>>], [q |-> <<92>>]}
+            [q |-> ka], [q |-> kEmpty], [q |-> <<97, 34, 98>>], [q |-> <<97, 32, 98>>], [q |-> kE], [q |-> <<49>>], [q |-> <<92>>],
+            [q |-> <<97, 47, 98>>], [q |-> <<10, 240, 159, 152, 128>>]}
 KpLists == UNION {[1..k -> KpElems] : k \in 0..2} \cup {<<[i |-> 1], [n |-> ka], [i |-> -2]>>, <<[n |-> ka], [q |-> kb], [q |-> <<99>>], [i |-> 0]>>}
 KpParse(text, want) == [op |-> "kp_parse", raw |-> <<text>>, a |-> [want |-> want, plain |-> IF KpPlain(want) THEN 1 ELSE 0]]
 KpErr(text) == [op |-> "kp_parse", raw |-> <<text>>, a |-> [expect |-> "err"]]
-EmitKp == \E kp \in KpLists, st \in {Plain, [ws |-> 1, kw |-> 0, quote |-> FALSE], [ws |-> 2, kw |-> 0, quote |-> FALSE]} : Out(KpParse(KeyPathText(kp, st), kp))
+EmitKp == \E kp \in KpLists, st \in {Plain, [ws |-> 1, kw |-> 0, quote |-> FALSE], [ws |-> 2, kw |-> 0, quote |-> FALSE], [ws |-> 0, kw |-> 0, quote |-> FALSE, esc |-> 1]} : Out(KpParse(KeyPathText(kp, st), kp))
 EmitKpFaults ==
   \E kp \in KpLists :
     LET t == KeyPathText(kp, Plain)
